@@ -63,7 +63,7 @@ def main():
 
             files = sorted({e['file'] for e in mutant.get('edits', [mutant])})
             results.setdefault(pid, {})[mid] = {'status': status, 'tier': args.tier, 'files': files,
-                                                'mechanisms': sorted(set(re.findall(r'mechanism=([\w:+.-]+)', detail)))[:4]}
+                                                'mechanisms': sorted({m.rstrip(':') for m in re.findall(r'mechanism=([\w:+.-]+)', detail)})[:4]}
     if args.markdown:
         os.makedirs(os.path.join(HERE, 'docs'), exist_ok=True)
         with open(results_path, 'w', encoding='utf-8') as fd:
